@@ -168,6 +168,12 @@ theorem handled_mem (cs ce : α) (twin : Option (α × α)) (res : Option (Resam
       · exact Or.inr (Or.inl h)
     · exact Or.inr (Or.inr (handledTwin_mem cs ce twin d h))
 
+theorem handled_none (cs ce : α) : handled cs ce none none = some [] := by
+  simp [handled, handledRes, handledTwin]
+
+theorem handled_step (cs ce d : α) : handled cs ce none (some (.step d)) = some [Dev.dt] := by
+  simp [handled, handledRes, handledTwin]
+
 theorem dtgRef_not_handled (cs ce : α) (twin : Option (α × α)) (res : Option (Resample α)) (hd : List Dev)
     (hh : handled cs ce twin res = some hd) : Dev.dtgRef ∉ hd := by
   intro h
@@ -185,14 +191,12 @@ theorem extrema_spec (ss : List (Summary α)) (e : Extrema α) (h : extrema ss =
     exact ⟨h1, h2, h3, h4, h5, h6⟩
   · simp at h
 
-/-- The meaning of a positive answer: there is no `dtg_ref` conflict, and every one of step / start / end either has zero
-spread over the series or is handled by the keyword arguments. -/
-theorem isCommon_spec (ss : List (Summary α)) (twin : Option (α × α)) (res : Option (Resample α)) (tc : TimeCheck α)
-    (h : checkTimeArrays ss twin res = .ok tc) (hc : tc.isCommon = true) :
+/-- A successful diagnosis: extrema exist, the keyword arguments are well-formed, and the result is `finishCheck`. -/
+theorem check_ok (ss : List (Summary α)) (twin : Option (α × α)) (res : Option (Resample α)) (tc : TimeCheck α)
+    (h : checkTimeArrays ss twin res = .ok tc) :
     ∃ e hd, extrema ss = some e ∧ handled e.smax e.emin twin res = some hd ∧
-      (dtgDefined ss && !sameDtg ss) = false ∧
-      (zeroSpread e.dmax e.dmin = true ∨ Dev.dt ∈ hd) ∧ (zeroSpread e.smax e.smin = true ∨ Dev.start ∈ hd) ∧
-      (zeroSpread e.emax e.emin = true ∨ Dev.stop ∈ hd) := by
+      tc.common = recommended e ∧ tc.deviations = (devs1 ss e).filter (fun d => !hd.contains d) ∧
+      tc.isCommon = tc.deviations.isEmpty := by
   unfold checkTimeArrays at h
   cases he : extrema ss with
   | none => simp [he] at h
@@ -202,40 +206,47 @@ theorem isCommon_spec (ss : List (Summary α)) (twin : Option (α × α)) (res :
     | none => simp [hh] at h
     | some hd =>
       simp only [hh] at h
-      have hnd := dtgRef_not_handled e.smax e.emin twin res hd hh
-      by_cases hconf : (dtgDefined ss && !sameDtg ss) = true
-      · exfalso
-        simp only [hconf, if_true] at h
-        have hf : List.filter (fun d => !hd.contains d) [Dev.dtgRef] = [Dev.dtgRef] := by
-          simp [hnd]
-        rw [hf] at h
-        split at h
-        · simp at h
-        · simp only [Except.ok.injEq] at h
-          subst h
-          simp at hc
-      · have hconf' : (dtgDefined ss && !sameDtg ss) = false := by simpa using hconf
-        simp only [hconf', Bool.false_eq_true, if_false] at h
-        split at h
-        · simp at h
-        · simp only [Except.ok.injEq] at h
-          subst h
-          simp only [List.isEmpty_iff, List.filter_eq_nil_iff, rawDeviations] at hc
-          refine ⟨e, hd, rfl, hh, hconf', ?_, ?_, ?_⟩
-          · by_cases hz : zeroSpread e.dmax e.dmin = true
-            · exact Or.inl hz
-            · right
-              have := hc Dev.dt (by simp [hz])
-              simpa using this
-          · by_cases hz : zeroSpread e.smax e.smin = true
-            · exact Or.inl hz
-            · right
-              have := hc Dev.start (by simp [hz])
-              simpa using this
-          · by_cases hz : zeroSpread e.emax e.emin = true
-            · exact Or.inl hz
-            · right
-              have := hc Dev.stop (by simp [hz])
-              simpa using this
+      unfold finishCheck at h
+      split at h
+      · simp at h
+      · simp only [Except.ok.injEq] at h
+        subst h
+        exact ⟨e, hd, rfl, hh, rfl, rfl, rfl⟩
+
+/-- The meaning of a positive answer: there is no `dtg_ref` conflict, and every one of step / start / end either has zero
+spread over the series or is handled by the keyword arguments. -/
+theorem isCommon_spec (ss : List (Summary α)) (twin : Option (α × α)) (res : Option (Resample α)) (tc : TimeCheck α)
+    (h : checkTimeArrays ss twin res = .ok tc) (hc : tc.isCommon = true) :
+    ∃ e hd, extrema ss = some e ∧ handled e.smax e.emin twin res = some hd ∧
+      (dtgDefined ss && !sameDtg ss) = false ∧
+      (zeroSpread e.dmax e.dmin = true ∨ Dev.dt ∈ hd) ∧ (zeroSpread e.smax e.smin = true ∨ Dev.start ∈ hd) ∧
+      (zeroSpread e.emax e.emin = true ∨ Dev.stop ∈ hd) := by
+  obtain ⟨e, hd, he, hh, -, hdev, hic⟩ := check_ok ss twin res tc h
+  rw [hic, hdev] at hc
+  have hnd := dtgRef_not_handled e.smax e.emin twin res hd hh
+  simp only [List.isEmpty_iff, List.filter_eq_nil_iff] at hc
+  have hconf' : (dtgDefined ss && !sameDtg ss) = false := by
+    by_contra hne
+    have ht : (dtgDefined ss && !sameDtg ss) = true := by simpa using hne
+    have := hc Dev.dtgRef (by simp [devs1, ht])
+    simp only [List.contains_eq_mem, Bool.not_eq_eq_eq_not, Bool.not_true, decide_eq_false_iff_not, not_not] at this
+    exact hnd this
+  simp only [devs1, hconf', Bool.false_eq_true, if_false, rawDeviations] at hc
+  refine ⟨e, hd, he, hh, hconf', ?_, ?_, ?_⟩
+  · by_cases hz : zeroSpread e.dmax e.dmin = true
+    · exact Or.inl hz
+    · right
+      have := hc Dev.dt (by simp [hz])
+      simpa using this
+  · by_cases hz : zeroSpread e.smax e.smin = true
+    · exact Or.inl hz
+    · right
+      have := hc Dev.start (by simp [hz])
+      simpa using this
+  · by_cases hz : zeroSpread e.emax e.emin = true
+    · exact Or.inl hz
+    · right
+      have := hc Dev.stop (by simp [hz])
+      simpa using this
 
 end Qats.Export
